@@ -420,6 +420,20 @@ def trim_cases(seed, count, repo_import, ai_mod, pysam, hdr):
             if info.exons_changed != (nl + nr > 0):
                 out["viol"].append(("trim-flag-wrong", cigar_str(cigar), a.reference_start, str(ex0), str(ex1)))
             pi_ = info.polya_info
+            # exons lying ENTIRELY inside a tail (at or beyond the internal polyA position / at or before the internal polyT position that was
+            # recorded before trimming) are all removed, however many there are - unless every exon of the read is such an exon
+            tp, ap = before["internal_polyt_pos"], before["internal_polya_pos"]
+            # (judged when only ONE kind of tail was recorded and some exon lies entirely outside it: otherwise the "all exons look like tails"
+            # guard, which keeps one exon per side, may legitimately apply)
+            in_t = [e for e in ex0 if tp != -1 and ap == -1 and e[1] <= tp] if any(e[0] >= tp for e in ex0) else []
+            in_a = [e for e in ex0 if ap != -1 and tp == -1 and e[0] >= ap] if any(e[1] <= ap for e in ex0) else []
+            if len(ex0) > 1 and len(in_t) + len(in_a) < len(ex0):
+                out["tail_only_exon_cases"] = out.get("tail_only_exon_cases", 0) + (1 if (in_t or in_a) else 0)
+                left = [e for e in in_t + in_a if e in ex1]
+                if left:
+                    out["viol"].append(("trim-exon-inside-the-tail-retained", cigar_str(cigar), a.reference_start,
+                                        "exons %s lie entirely inside a tail (polyT position %d, polyA position %d) but are retained: %s -> %s" %
+                                        (left, tp, ap, ex0, ex1), ""))
             # a side on which no exon was removed keeps its recorded positions
             for side_removed, names in ((nr, ("internal_polya_pos", "external_polya_pos")), (nl, ("internal_polyt_pos", "external_polyt_pos"))):
                 if side_removed == 0:
@@ -539,6 +553,7 @@ def run(chk, scratch):
             trimmed += res.get("trimmed", 0)
             chk.count("hard_clip_pairs_compared", res.get("hard_clip_pairs", 0))
             chk.count("padding_pairs_compared", res.get("padding_pairs", 0))
+            chk.count("reads_with_exons_entirely_inside_a_tail", res.get("tail_only_exon_cases", 0))
             for k, v in res.get("classes", {}).items():
                 classes[k] = classes.get(k, 0) + v
             for k, v in res.get("trim_classes", {}).items():
